@@ -19,7 +19,7 @@ func init() {
 }
 
 func runC11(c *core.Ctx) {
-	c.Explanation = "Structural necessary conditions of total, deterministic linting, decided on SSA of linter/**: (lint.recursion) every recursion of the linter is structurally descending on the syntax tree or guarded by a depth/visited bound (E9: call-graph SCCs, edges classified descending/same/re-entry, guards recognised by dominance) — include expansion is the re-entry edge that needs a visited set; (lint.optnil) fields the grammar leaves nil are tested before being dereferenced (E2); (lint.hoist) in lintVCL the registration of root declarations dominates the linting of any body, and include expansion dominates the registration; (lint.maporder) no range over a map in the linter leaves its loop early (break/return inside the body), the shape that makes *which* diagnostics are produced depend on Go's randomised map order; (lint.monotone) the scope-inference fixed point only ORs bits into subroutine scope masks, so its result is independent of iteration order. A map created outside a map-range loop that is both consulted for a branch and updated inside the loop (directly or in closures created there) is reported: the outcome for one entry then depends on the entries visited before it. (lint.fixpoint) in a `for changed { changed = false … }` loop every update of heap state reaches the next iteration only over an edge that sets the flag, so the loop cannot stop before the fixed point at a place that depends on map order; (lint.lastwins) a table keyed by a declaration name and filled in a loop merges with, or tests for, the entry already stored under the name; (lint.scopeentry) every function of linter/context that enters a subroutine scope (stores curMode from a parameter) calls the same per-subroutine reset methods as its siblings."
+	c.Explanation = "Structural necessary conditions of total, deterministic linting, decided on SSA of linter/**: (lint.recursion) every recursion of the linter is structurally descending on the syntax tree or guarded by a depth/visited bound (E9: call-graph SCCs, edges classified descending/same/re-entry, guards recognised by dominance) — include expansion is the re-entry edge that needs a visited set; (lint.optnil) fields the grammar leaves nil are tested before being dereferenced (E2); (lint.hoist) in lintVCL the registration of root declarations dominates the linting of any body, and include expansion dominates the registration; (lint.maporder) no range over a map in the linter leaves its loop early (break/return inside the body), the shape that makes *which* diagnostics are produced depend on Go's randomised map order; (lint.monotone) the scope-inference fixed point only ORs bits into subroutine scope masks, so its result is independent of iteration order. A map created outside a map-range loop that is both consulted for a branch and updated inside the loop (directly or in closures created there) is reported: the outcome for one entry then depends on the entries visited before it. (lint.fixpoint) in a `for changed { changed = false … }` loop every update of heap state reaches the next iteration only over an edge that sets the flag, so the loop cannot stop before the fixed point at a place that depends on map order; (lint.lastwins) a table keyed by a declaration name and filled in a loop merges with, or tests for, the entry already stored under the name; (lint.scopeentry) every function of linter/context that enters a subroutine scope (stores curMode from a parameter) calls the same per-subroutine reset methods as its siblings. (lint.mapderef) a context table entry is read without comma-ok only when its registrar cannot fail without leaving an entry."
 	c.NotCovered = []string{"diagnostic text that embeds a value computed in map order", "equality of messages across runs beyond these shape arguments", "stack depth of descending recursion on pathologically deep trees"}
 	prog := c.Prog
 	u := newAstUniverse(prog)
